@@ -156,13 +156,10 @@ def _handle_ConnectionUp (event):
 def _handle_LinkEvent (event):
   # When links change, update spanning tree
 
-  (dp1,p1),(dp2,p2) = event.link.end
-  if _prev[dp1][p1] is False:
-    if _prev[dp2][p2] is False:
-      # We're disabling this link; who cares if it's up or down?
-      #log.debug("Ignoring link status for %s", event.link)
-      return
-
+  # (Even when flooding is currently off on both ends: a link that goes
+  # away turns its ports into edge ports, and the second direction of a
+  # link can join two parts of the network.  _update_tree() only sends
+  # port mods for ports whose flood bit actually changes.)
   _update_tree()
 
 
